@@ -82,6 +82,7 @@ func runC04Case(c *Ctx, kind string, input []rune) {
 
 func propC04(c *Ctx) {
 	propScaleTokenizers(c, "C04")
+	propLongSymbols(c)
 	kinds := append([]string{"g", "e", "m"}, csvKinds(c)...)
 	// characters that tempt a "clean-up" at the edges of the input: byte order mark, NUL, line and paragraph
 	// separators, U+0100 (first character above the direct table), the last BMP characters
@@ -130,7 +131,7 @@ func propC04(c *Ctx) {
 }
 
 func replayTok(c *Ctx, op string) {
-	if replayEntry(c, op) {
+	if replayEntry(c, op) || replayTokC(c, op) {
 		return
 	}
 	if strings.HasPrefix(op, "hist ") || strings.HasPrefix(op, "tokh ") {
@@ -138,6 +139,10 @@ func replayTok(c *Ctx, op string) {
 		return
 	}
 	f := strings.Fields(op)
+	if len(f) == 3 && f[0] == "retain" {
+		propC12Retention(c)
+		return
+	}
 	if len(f) != 4 {
 		return
 	}
@@ -204,12 +209,21 @@ func runC12Case(c *Ctx, kind string, optSets []int, input []rune) {
 		if !aligned {
 			c.count("unaligned-with-raw-stream(left to C15)")
 		} else if msg := oraclePositions(input, ts, starts); msg != "" {
+			if len(input) > 2000 {
+				// the replay names the input; the evidence of the mismatch is in the note
+				impl = fmt.Sprintf("<%d tokens>", len(ts))
+			}
 			c.fail(Failure{Kind: "oracle", Op: op, Impl: impl, Note: msg})
 			continue
 		}
-		c.model(op, impl, "model")
+		if len(input) <= modelMaxInput {
+			c.model(op, impl, "model")
+		}
 	}
 }
+
+// inputs longer than this are checked by the direct oracles only (the model driver is not run on them)
+const modelMaxInput = 20000
 
 var allOpts = func() []int {
 	a := make([]int, 128)
@@ -219,8 +233,44 @@ var allOpts = func() []int {
 	return a
 }()
 
+// tokens handed out earlier keep their values while the tokenizer goes on producing tokens, in the same input and in later ones
+func propC12Retention(c *Ctx) {
+	for _, k := range []string{"g", "e"} {
+		for _, o := range []int{16 | 32, 64 | 16, 0} {
+			op := fmt.Sprintf("retain %s %d", k, o)
+			c.record(op, true)
+			c.count("retained-token-lists")
+			var note string
+			st := safeCallT(20*time.Second, func() string {
+				t := newTokenizer(k)
+				setOpts(t, o)
+				first := t.TokenizeBuffer("7 8\n9 'a' ?")
+				want := showTks(conv(first))
+				n := 2200
+				if c.Thorough {
+					n = 9000
+				}
+				for i := 0; i < n; i++ {
+					t.TokenizeBuffer("1 2\n'b' 3")
+					if i%50 == 0 || i == n-1 {
+						if got := showTks(conv(first)); got != want {
+							note = fmt.Sprintf("the tokens returned for %q read %s at first and %s after %d further TokenizeBuffer calls on the same tokenizer", "7 8\n9 'a' ?", want, got, i+1)
+							return ""
+						}
+					}
+				}
+				return ""
+			})
+			if st != "" || note != "" {
+				c.fail(Failure{Kind: "oracle", Op: op, Impl: st, Note: note})
+			}
+		}
+	}
+}
+
 func propC12(c *Ctx) {
 	propScaleTokenizers(c, "C12")
+	propC12Retention(c)
 	kinds := []string{"g", "e", "m", "c:44:34"}
 	alpha := []rune{'a', '1', ' ', '\n', '\r', '"', '/', '*', '-', '{', '}', ',', 0x4e16}
 	maxL := 3
@@ -301,6 +351,9 @@ func runC15Case(c *Ctx, kind string, optSets []int, input []rune) {
 			c.fail(Failure{Kind: "oracle", Op: op, Impl: impl, Note: bad + " (option-free stream: " + showTks(raw) + ")"})
 			continue
 		}
+		if kind == "h" || kind == "H" {
+			continue // a state written by the user: no model of it, the direct oracles decide
+		}
 		if c.Evals%16 == 0 {
 			checkTokEntryPoints(c, kind, o, input, ts)
 		}
@@ -310,6 +363,12 @@ func runC15Case(c *Ctx, kind string, optSets []int, input []rune) {
 
 func propC15(c *Ctx) {
 	propScaleTokenizers(c, "C15")
+	// tokens of every public type: HexDecimal comes from a user number state only
+	for _, k := range []string{"h", "H"} {
+		for _, in := range []string{"a 12 0x1F 3.5 0 0xZ 07", "0x1F", "0xff+0X0a", "x=0x10 # c\n 0x", "'0x1' 0x2  0x3", "1 0x1 1.0 0x"} {
+			runC15Case(c, k, allOpts, []rune(in))
+		}
+	}
 	kinds := []string{"g", "e", "m", "c:44:34"}
 	maxL := 2
 	if c.Thorough {
